@@ -1425,25 +1425,7 @@ static inline SyntaxKind recognize16(const char* s, const ParseOptions& opts)
                                                     }
                                                 }
                                             }
-                                        }
-                                    }
-                                }
-                            }
-                        }
-                    }
-                }
-            }
-        }
-        else if (s[1] == '_') {
-            if (s[2] == 'b') {
-                if (s[3] == 'u') {
-                    if (s[4] == 'i') {
-                        if (s[5] == 'l') {
-                            if (s[6] == 't') {
-                                if (s[7] == 'i') {
-                                    if (s[8] == 'n') {
-                                        if (s[9] == '_') {
-                                            if (s[10] == 't') {
+                                            else if (s[10] == 't') {
                                                 if (s[11] == 'g') {
                                                     if (s[12] == 'm') {
                                                         if (s[13] == 'a') {
